@@ -3,7 +3,7 @@
 import json, os, shutil, subprocess, sys
 pid, sid, needs = sys.argv[1:4]
 desc = sys.argv[4] if len(sys.argv) > 4 else ""
-wt = f"/tmp/wt_{pid}"
+wt = os.environ.get("SEED_WT") or f"/tmp/wt_{pid}"
 d = f"/verif/seeded/{sid}"
 os.makedirs(d, exist_ok=True)
 diff = subprocess.run("git diff -- taskiq", shell=True, cwd=wt, capture_output=True, text=True).stdout
